@@ -27,6 +27,9 @@ func (fc *FnCtx) src(n ast.Node) string {
 	if n == nil {
 		return ""
 	}
+	if p, ok := n.(posExpr); ok {
+		n = p.BinaryExpr
+	}
 	var sb strings.Builder
 	_ = printer.Fprint(&sb, fc.pkg.Fset, n)
 	s := strings.Join(strings.Fields(sb.String()), " ")
